@@ -4,7 +4,7 @@ import vlib
 from c_indicators import load_findings, known_line
 
 NAMES = ['aapl', 'msft', 'brk-b']
-REPO_NAMES = ['aapl', 'msft', 'brk-b', 'brk.b', 'A']   # tickers with a dot exist (BRK.B)
+REPO_NAMES = ['aapl', 'msft', 'brk-b', 'brk.b', 'A', 'cvs', 'msft.us', 'v']   # tickers with a dot exist (BRK.B)
 
 
 # ------------------------------------------------------------------------------------------ C10
@@ -307,7 +307,7 @@ def check_c12(res, tier, replay):
             assets = '-' if rng.random() < 0.3 else ','.join(rng.sample(names, rng.randrange(1, 6)))
             fs = '-' if rng.random() < 0.7 else ','.join(rng.sample(names, rng.randrange(1, 3)))
             ft = '-' if rng.random() < 0.7 else ','.join(rng.sample(names, rng.randrange(1, 3)))
-            impl = rng.choice(['mem', 'mem', 'fs'])
+            impl = rng.choice(['mem', 'mem', 'fs', 'memtz'])     # memtz: local midnights in a daylight-saving zone (in-memory only)
             cases.append((workers, rng.randrange(0, 30), assets, fs, ft, impl, rng.choice([1, 2, 2, 3]), gen_store(rng, names), gen_store(rng, names)))
     lines = ['y%d SYNC %s' % (i, ' '.join(map(str, c))) for i, c in enumerate(cases)]
     go, model = vlib.run_go(lines), vlib.run_model(lines)
